@@ -291,10 +291,22 @@ def s14_free(decls):
             return d[0] == "int" and isinstance(d[2], tuple) and d[2][0] == "int"
         return False
 
+    def all_const(e):
+        k = e[0]
+        if k == "int":
+            return True
+        if k == "var":
+            return kinds[e[1]] == "int"
+        return all(all_const(x) for x in e[1:] if isinstance(x, tuple))
+
     def ok(e):
         if not isinstance(e, tuple):
             return True
         if e[0] == "bin" and is_int(e[2]) and not is_int(e[3]) and not simple(e[2]):
+            return False
+        if e[0] == "cond" and all_const(e[2]) and not (
+                e[2][0] == "int" or (e[2][0] == "lit" and e[2][2][0] == "int")):
+            # known finding L1 (C17): `cond : v` with v a compound constant loses the constant
             return False
         return all(ok(x) for x in e[1:])
 
